@@ -381,8 +381,10 @@ class Weaver:
         return self.sources[rel]
 
     # ---------------------------------------------------------------------------------------
-    def weave(self, group, extras=()):
+    def weave(self, group, extras=(), bare=(), drop_aids=None):
         self.extras = list(extras)
+        self.bare = set(bare)
+        self.drop_aids = drop_aids or {}
         w = Woven(group)
         self._template(os.path.join(self.verif, 'groups', group + '.rs'), w)
         return w
@@ -463,6 +465,11 @@ class Weaver:
                         notes=['auto-extracted helper without contract'], implextra=[], aftereach=[], regions=[], tail=None, tailbind=None, implas=None)
         else:
             spec = parse_vspec(os.path.join(self.verif, 'contracts', unit + '.vspec'))
+        if unit in getattr(self, 'bare', ()) and mode == 'verify':
+            # a proof aid of this unit no longer type-checks against the changed code: keep the contract, drop every aid
+            spec = dict(spec, loops={}, closures={}, ats=[], tail=None, tailbind=None,
+                        attrs=list(spec['attrs']) + ['#[verifier::exec_allows_no_decreases_clause]'],
+                        notes=list(spec['notes']) + ['proof aids dropped: they no longer type-check against the changed code'])
         file, segs = parse_source_path(spec['source'])
         S = self.src(file)
         it = S.find(segs)
@@ -580,9 +587,12 @@ class Weaver:
         # All woven text goes in through placeholders that are expanded at the very end, so that loop / closure
         # ordinals and text anchors are resolved on code-only text (post-rewrite), never on woven ghost text.
         holders = []
+        holder_ids = []
+        dropped = getattr(self, 'drop_aids', {}).get(unit, set())
 
-        def hold(text):
-            holders.append(text)
+        def hold(text, aid='?'):
+            holder_ids.append(aid)
+            holders.append('' if aid in dropped else text)
             return '/*@@W%d@@*/' % (len(holders) - 1)
         # pattern-driven ghost instrumentation: one woven line after every match
         for ae in spec['aftereach']:
@@ -592,7 +602,7 @@ class Weaver:
                 m = re.compile(ae['rx']).search(mt.text, pos)
                 if not m:
                     break
-                ins = hold(m.expand(ae['text']))
+                ins = hold(m.expand(ae['text']), 'after-each:%s' % ae['rx'])
                 mt.insert_line_after(m.end() - 1, ins)
                 pos = m.end() + len(ins) + 1
                 cnt += 1
@@ -615,9 +625,9 @@ class Weaver:
                 lost.append('hint anchor %r (matches %d times)' % (at['anchor'], cnt))
                 continue
             if at['where'] == 'before':
-                mt.insert_line_at(i, hold(at['text']))
+                mt.insert_line_at(i, hold(at['text'], 'at:%s' % at['anchor']))
             else:
-                mt.insert_line_after(i + alen - 1, hold(at['text']))
+                mt.insert_line_after(i + alen - 1, hold(at['text'], 'at:%s' % at['anchor']))
         # loops: keyed by ordinal (source order) or by header text; resolved to offsets first, woven back to front
         msk = mask(mt.text)
         loops = find_loops(msk, 0, len(msk))
@@ -648,11 +658,11 @@ class Weaver:
                     continue
                 ins = kw + hm.end()
                 itname = '__it%d' % n if isinstance(key_, int) else '__it_' + re.sub(r'\W+', '_', key_).strip('_')[:24]
-                mt.replace(brace, brace, '\n' + hold(txt.replace('__IT', itname)) + '\n', woven=True)
+                mt.replace(brace, brace, '\n' + hold(txt.replace('__IT', itname), 'loop:%s' % (key_,)) + '\n', woven=True)
                 mt.replace(ins, ins, itname + ': ')
                 log.append(('R11', 'loop %r: ghost iterator %s + woven invariants' % (key_, itname)))
             else:
-                mt.replace(brace, brace, '\n' + hold(txt) + '\n', woven=True)
+                mt.replace(brace, brace, '\n' + hold(txt, 'loop:%s' % (key_,)) + '\n', woven=True)
                 log.append(('R11', 'loop %r: woven invariants' % (key_,)))
         # closures: keyed by ordinal or by the text of their parameter list
         msk = mask(mt.text)
@@ -674,7 +684,7 @@ class Weaver:
                 chosen.append((i_, sec['text'], key_))
         for idx, txt0, key_ in sorted(chosen, reverse=True):
             a, b = cls[idx]
-            txt = hold(txt0.strip())
+            txt = hold(txt0.strip(), 'closure:%s' % (key_,))
             rest = msk[b:]
             lead = len(rest) - len(rest.lstrip())
             if rest.lstrip().startswith('{'):
@@ -692,13 +702,24 @@ class Weaver:
                 mt.replace(j, j, ' }')
                 mt.replace(b, b + lead, ' ' + txt + ' { ')
             log.append(('closure', 'closure %r: woven contract' % (key_,)))
-        # expand placeholders
+        # expand placeholders (remember where each proof aid ends up, relative to the body)
+        aid_spans = []
         for k in range(len(holders) - 1, -1, -1):
             ph = '/*@@W%d@@*/' % k
             i = mt.text.find(ph)
             if i < 0:
                 raise SliceError('%s: internal: placeholder %d lost' % (unit, k))
             mt.replace(i, i + len(ph), holders[k], woven=True)
+        # second pass for positions: aids are unique texts in order; locate by scanning
+        pos = 0
+        for k in range(len(holders)):
+            if not holders[k]:
+                continue
+            i = mt.text.find(holders[k], pos)
+            if i >= 0:
+                l0 = mt.text.count('\n', 0, i)
+                aid_spans.append((holder_ids[k], l0, l0 + holders[k].count('\n')))
+                pos = i + len(holders[k])
         # regions: attribute a failing exit to the properties of the arm it lies in
         regions = []
         for rg in spec['regions']:
@@ -730,7 +751,9 @@ class Weaver:
                             sha256=S.sha(it['start'], it['end']), line_start=unit_start, line_end=w.lineno,
                             body_start=body_start, rules=log, props_safety=spec['props_safety'],
                             props_internal=spec['props_internal'], fn=it['name'], notes=spec['notes'],
-                            regions=sorted([(body_start + ln, pr, rx) for ln, pr, rx in regions]), lost_anchors=lost))
+                            regions=sorted([(body_start + ln, pr, rx) for ln, pr, rx in regions]), lost_anchors=lost,
+                            aids=[(a_, body_start + l0_, body_start + l1_) for a_, l0_, l1_ in aid_spans],
+                            dropped_aids=sorted(dropped)))
 
 
 def main():
